@@ -52,7 +52,7 @@ def _mk(item):
 
 
 def ctx_of_deriv(deriv):
-    st = [p for p in deriv if p in c08.STAT_PRODS or p in ('PParen', 'Table', 'FTSep', 'ArgsStr', 'ArgsTable', 'SElse')]
+    st = [p for p in deriv if p in c08.STAT_PRODS or p in ('PParen', 'Table', 'FTSep', 'ArgsStr', 'ArgsTable', 'SElse', 'SElseEmpty')]
     seen = []
     for p in st:
         if p not in seen:
